@@ -804,24 +804,36 @@ func handMade() map[gopacket.LayerType][][]byte {
 	copy(pktap[0x38:], "curl")
 	copy(pktap[0x58:], "curl")
 	pktap = append(pktap, eth...)
+	// SCTP chunk types have no decoder of their own: they are reached through an SCTP common header
+	sctp := func(chunks ...[]byte) []byte {
+		b := []byte{0x9c, 0x40, 0x9c, 0x41, 1, 2, 3, 4, 0, 0, 0, 0}
+		for _, ch := range chunks {
+			b = append(b, ch...)
+		}
+		return b
+	}
+	hb := []byte{4, 0, 0, 12, 0, 1, 0, 8, 0xde, 0xad, 0xbe, 0xef}
+	hbAck := []byte{5, 0, 0, 12, 0, 1, 0, 8, 0xde, 0xad, 0xbe, 0xef}
+	sErr := []byte{9, 0, 0, 20, 0, 2, 0, 8, 0, 0, 0, 7, 0, 6, 0, 8, 0x3f, 0, 0, 4}
+	abort := []byte{6, 0, 0, 12, 0, 12, 0, 8, 'b', 'y', 'e', '!'}
+	unk := []byte{0x3f, 0, 0, 8, 1, 2, 3, 4}
+	unkSkip := []byte{0xc1, 0, 0, 6, 1, 2, 0, 0}
+	cookieAck, shutAck, shutDone := []byte{11, 0, 0, 4}, []byte{8, 0, 0, 4}, []byte{14, 1, 0, 4}
+	shut := []byte{7, 0, 0, 8, 0, 0, 0, 9}
+	cookie := []byte{10, 0, 0, 12, 1, 2, 3, 4, 5, 6, 7, 8}
+	initC := []byte{1, 0, 0, 32, 0, 0, 0, 1, 0, 1, 0, 0, 0, 2, 0, 2, 0, 0, 0, 9, 0, 5, 0, 8, 10, 0, 0, 1, 0xc0, 0, 0, 4}
+	initAck := []byte{2, 0, 0, 32, 0, 0, 0, 1, 0, 1, 0, 0, 0, 2, 0, 2, 0, 0, 0, 9, 0, 7, 0, 12, 1, 2, 3, 4, 5, 6, 7, 8}
+	sack := []byte{3, 0, 0, 24, 0, 0, 0, 9, 0, 1, 0, 0, 0, 1, 0, 1, 0, 2, 0, 3, 0, 0, 0, 7}
+	data := []byte{0, 3, 0, 20, 0, 0, 0, 1, 0, 1, 0, 0, 0, 0, 0, 0, 'd', 'a', 't', 'a'}
 	return map[gopacket.LayerType][][]byte{
-		layers.LayerTypeSCTPHeartbeat:          {{4, 0, 0, 12, 0, 1, 0, 8, 0xde, 0xad, 0xbe, 0xef}, {4, 0, 0, 16, 0, 1, 0, 10, 1, 2, 3, 4, 5, 6, 0, 0}},
-		layers.LayerTypeSCTPHeartbeatAck:       {{5, 0, 0, 12, 0, 1, 0, 8, 0xde, 0xad, 0xbe, 0xef}},
-		layers.LayerTypeSCTPError:              {{9, 0, 0, 12, 0, 1, 0, 8, 0, 5, 0, 0}, {9, 0, 0, 20, 0, 2, 0, 8, 0, 0, 0, 7, 0, 6, 0, 8, 0x3f, 0, 0, 4}},
-		layers.LayerTypeSCTPAbort:              {{6, 0, 0, 12, 0, 12, 0, 8, 'b', 'y', 'e', '!'}, {6, 1, 0, 4}},
-		layers.LayerTypeSCTPUnknownChunkType:   {{0x3f, 0, 0, 8, 1, 2, 3, 4}, {0xc1, 0, 0, 6, 1, 2, 0, 0}},
-		layers.LayerTypeSCTPEmptyLayer:         {{11, 0, 0, 4}, {8, 0, 0, 4}, {14, 1, 0, 4}},
-		layers.LayerTypeSCTPShutdown:           {{7, 0, 0, 8, 0, 0, 0, 9}},
-		layers.LayerTypeSCTPCookieEcho:         {{10, 0, 0, 12, 1, 2, 3, 4, 5, 6, 7, 8}},
-		layers.LayerTypeSCTPInit:               {{1, 0, 0, 32, 0, 0, 0, 1, 0, 1, 0, 0, 0, 2, 0, 2, 0, 0, 0, 9, 0, 5, 0, 8, 10, 0, 0, 1, 0xc0, 0, 0, 4}},
-		layers.LayerTypeSCTPInitAck:            {{2, 0, 0, 32, 0, 0, 0, 1, 0, 1, 0, 0, 0, 2, 0, 2, 0, 0, 0, 9, 0, 7, 0, 12, 1, 2, 3, 4, 5, 6, 7, 8}},
-		layers.LayerTypeSCTPSack:               {{3, 0, 0, 24, 0, 0, 0, 9, 0, 1, 0, 0, 0, 1, 0, 1, 0, 2, 0, 3, 0, 0, 0, 7}},
-		layers.LayerTypeDot11DataCFAck:         {snap},
-		layers.LayerTypeDot11DataCFPoll:        {snap},
-		layers.LayerTypeDot11DataCFAckPoll:     {snap},
-		layers.LayerTypeEthernetCTPForwardData: {{2, 0, 0xaa, 0xbb, 0xcc, 0xdd, 0xee, 0xff, 1, 0, 0x12, 0x34, 0xde, 0xad, 0xbe, 0xef}},
-		layers.LayerTypeEthernetCTPReply:       {{1, 0, 0x12, 0x34, 0xde, 0xad, 0xbe, 0xef}},
-		layers.LayerTypePktap:                  {pktap},
+		layers.LayerTypeSCTP: {sctp(hb), sctp(hbAck), sctp(sErr), sctp(abort), sctp(unk), sctp(unkSkip, data), sctp(cookieAck), sctp(shutAck), sctp(shutDone), sctp(shut),
+			sctp(cookie, data), sctp(initC), sctp(initAck), sctp(sack, data), sctp(data, sack, hb)},
+		layers.LayerTypeDot11DataCFAck:     {snap},
+		layers.LayerTypeDot11DataCFPoll:    {snap},
+		layers.LayerTypeDot11DataCFAckPoll: {snap},
+		// skip count, then forward-data (to a MAC) wrapping a reply (receipt number + data)
+		layers.LayerTypeEthernetCTP: {{0, 0, 2, 0, 0xaa, 0xbb, 0xcc, 0xdd, 0xee, 0xff, 1, 0, 0x12, 0x34, 0xde, 0xad, 0xbe, 0xef}, {0, 0, 1, 0, 0x12, 0x34, 0xde, 0xad, 0xbe, 0xef}},
+		layers.LayerTypePktap:       {pktap},
 		// solicit: client id (DUID-LLT), option request, elapsed time, IA_NA, server id (DUID-LL)
 		layers.LayerTypeDHCPv6: {
 			{1, 0x57, 0x19, 0x58, 0, 1, 0, 14, 0, 1, 0, 1, 0x1c, 0x38, 0x26, 0x2d, 8, 0, 0x27, 0xfe, 0x8f, 0x95, 0, 6, 0, 4, 0, 23, 0, 24, 0, 8, 0, 2, 0, 0,
